@@ -86,6 +86,20 @@ def validate_all(M, progs, impl, budgets):
     return {k: o for k, o in zip(keys, outs)}
 
 
+def dvalidate_all(M, progs, impl, budgets):
+    """Runs the verified degree validator DegJustify.djust_cfg on the implementation's real annotated output."""
+    lines, keys = [], []
+    for i, (curve, src, _) in enumerate(progs):
+        for kv, kd in budgets:
+            o = impl[(i, kv, kd)]
+            if o.startswith("(ok "):
+                x = sexp.parse(o)
+                lines.append("djust %s" % sexp.show(x[2]))
+                keys.append((i, kv, kd))
+    outs = common.run_lines(M, [], lines, shards=common.NPROC, timeout=1200) if lines else []
+    return {k: o for k, o in zip(keys, outs)}
+
+
 def count_claims(x, acc):
     if isinstance(x, list):
         if x and x[0] == "k" and len(x) == 3:
@@ -139,7 +153,13 @@ def run(ctx, proofs, budgets, check_vals=True, check_degs=True, n_quick=500, n_t
     impl = lift_all(H, progs, budgets)
     model = model_all(M, progs, impl, budgets)
     valid = validate_all(M, progs, impl, budgets)
-    unjustified = [{"input": progs[i][1], "curve": progs[i][0], "budget": [kv, kd]} for (i, kv, kd), o in valid.items() if o != "(justified)"]
+    unjustified = [{"input": progs[i][1], "curve": progs[i][0], "budget": [kv, kd], "validator": "Justify.vjust_cfg", "answer": o}
+                   for (i, kv, kd), o in valid.items() if o != "(justified)"]
+    dvalid = {}
+    if check_degs:
+        dvalid = dvalidate_all(M, progs, impl, budgets)
+        unjustified += [{"input": progs[i][1], "curve": progs[i][0], "budget": [kv, kd], "validator": "DegJustify.djust_cfg", "answer": o}
+                        for (i, kv, kd), o in dvalid.items() if o == "(unjustified)"]
     disagreements, failing = [], []
     status = {}
     claims = {"val": 0, "deg": 0, "deg_le_quadratic": 0, "phi_val": 0, "literal": 0}
@@ -199,7 +219,8 @@ def run(ctx, proofs, budgets, check_vals=True, check_degs=True, n_quick=500, n_t
                                         "kind": "degree"})
                     if bad:
                         break
-    return {"disagreements": disagreements, "failing": failing, "unjustified": unjustified, "validated": len(valid), "status": status, "claims": claims,
+    return {"disagreements": disagreements, "failing": failing, "unjustified": unjustified, "validated": len(valid),
+            "dvalidated": sum(1 for o in dvalid.values() if o == "(justified)"), "dskipped_arrays": sum(1 for o in dvalid.values() if o == "(arrays)"), "status": status, "claims": claims,
             "nontrivial": len(nontrivial), "evaluations": evaluations, "programs": len(progs),
             "exercised_value_claims": exercised_v, "exercised_degree_claims": exercised_d,
             "samples": [progs[0][1], progs[len(progs) // 2][1]], "origins": {o: sum(1 for q in progs if q[2].split("/")[0] == o) for o in ("corpus", "targeted", "random")}}
@@ -232,9 +253,9 @@ def verdict(ctx, proofs, r, kinds, known_classes, extra_cov=None):
     if not real:
         if r["unjustified"]:
             u = r["unjustified"][0]
-            ctx.violation("the verified validator Justify.vjust_cfg rejects the implementation's annotated graph (%d cases); no wrong claim was "
-                          "found by the interpreter" % len(r["unjustified"]),
-                          {"broken": "validation of the implementation's output by Justify.vjust_cfg", "first": u}, no_input=True)
+            ctx.violation("the verified validator %s rejects the implementation's annotated graph (%d cases); no wrong claim was "
+                          "found by the interpreter" % (u.get("validator"), len(r["unjustified"])),
+                          {"broken": "validation of the implementation's output by " + str(u.get("validator")), "first": u}, no_input=True)
         elif r["disagreements"]:
             d = r["disagreements"][0]
             ctx.violation("correspondence Model.Propagate vs Cfg::propagate_values/propagate_degrees broken (%d cases)" % len(r["disagreements"]),
@@ -256,7 +277,9 @@ def verdict(ctx, proofs, r, kinds, known_classes, extra_cov=None):
         "value_claims_checked_by_interpreter": r["exercised_value_claims"],
         "degree_claims_checked_by_finite_differences": r["exercised_degree_claims"],
         "graphs_validated_by_vjust_cfg": r["validated"],
-        "graphs_rejected_by_vjust_cfg": len(r["unjustified"]),
+        "graphs_rejected_by_a_validator": len(r["unjustified"]),
+        "array_free_graphs_validated_by_djust_cfg": r["dvalidated"],
+        "graphs_with_arrays_skipped_by_djust_cfg": r["dskipped_arrays"],
         "disagreements_model_vs_impl": len(r["disagreements"]),
         "input_origins": r["origins"],
     }
